@@ -79,7 +79,7 @@ typedef int gv_list_iterator;
    __CPROVER_r_ok((S)->gv_pos, ((S)->gv_n + 1) * sizeof(int)) && __CPROVER_r_ok((S)->gv_act, ((S)->gv_n + 1) * sizeof(int)) && \
    __CPROVER_r_ok((S)->gv_cnt, ((S)->gv_n + 1) * sizeof(int)) && POS(S, 0) == 1 && ACT(S, 0) == 0 && \
    CNT(S, 0) == 0 && WF_COV(&(S)->covariance_matrix))
-/* update() has run since the list / the flags changed last: what activeCov() silently relies on */
+/* update() has run since the list / the flags changed last (postcondition of update(); activeCov() does NOT need it) */
 #define FRESH(S) ((S)->act_dim == NACT(S))
 
 #define SAMEVAL(x, y) ((x) == (y) || ((x) != (x) && (y) != (y)))
@@ -346,11 +346,15 @@ gv_b = b;
 
 /* ------------------------------------------------------------------------------------------------------------ */
 /* activeCov(): the sub-matrix of the active components.
-   Preconditions: the covariance matrix has the dimension of the cluster (C10: a mismatch is refused by the parser),
-   and FRESH (update() has run since the last change -- see check api_stale for what happens otherwise).
+   Precondition: the covariance matrix has the dimension of the cluster (C10: a mismatch is refused by the parser).
+   NOTHING is required of the cached counters act_obs / act_dim / act_nonz (since /repo e3f0492 the function counts the
+   active dimension from the list it walks): the harness leaves them arbitrary, so every history  update(); <any
+   number of set_active()/set_passive()/list edits without update()>; activeCov()  is covered, and the result is the
+   sub-matrix of the CURRENT active set.  (The former check api_stale, which failed on the unrepaired tree, is
+   subsumed: its state after update(); flip is one of the states quantified over here.)
    Postconditions, for an ARBITRARY pair of components (t1,d1) <= (t2,d2) of active observations (ghost selection),
    with ranks k1 <= k2 and positions P1 <= P2:
-     (3a) result dimension  = sum of the dimensions of the active observations, band = min(band, N-1), 0 if N == 0;
+     (3a) result dimension  = LIVE sum of the dimensions of the active observations (whatever act_dim says), band = min(band, N-1), 0 if N == 0;
      (3b) if k2-k1 <= result band: result(k1,k2) was written exactly once and holds full(P1,P2);
      (4)  if k2-k1 >  result band: P2-P1 > full band, i.e. full(P1,P2) is a structural zero: nothing is lost;
      (5)  exactly one new[] and one delete[], of the same block; the cluster itself is not modified (assigns).
@@ -364,7 +368,6 @@ gv_b = b;
 //@ contract Cluster_activeCov
 __CPROVER_requires(WF_CLUSTER(self))
 __CPROVER_requires(self->covariance_matrix.row_ == NTOT(self))
-__CPROVER_requires(FRESH(self))
 __CPROVER_requires(SEL_OK(self, gv_t1, gv_d1, gv_k1, gv_P1) && SEL_OK(self, gv_t2, gv_d2, gv_k2, gv_P2) && SEL_ORDER)
 __CPROVER_requires(SEL_OK(self, gv_t3, gv_d3, gv_k3, gv_P3))
 __CPROVER_requires(self->covariance_matrix.gv_r0 == gv_P1 && self->covariance_matrix.gv_c0 == gv_P2)
@@ -396,14 +399,30 @@ if (gv_k1 && gv_k2) gv_lemma_pair(self, gv_t1, gv_d1, gv_t2, gv_d2);
 #pragma CPROVER check pop
 
 //@ loop Cluster_activeCov 1
+__CPROVER_assigns(i, N)
+__CPROVER_loop_invariant(0 <= i && i <= e && e == self->gv_n && N == ACT(self, i))
+__CPROVER_decreases(e - i)
+//@ head Cluster_activeCov 1
+#pragma CPROVER check push
+#pragma CPROVER check disable "signed-overflow"
+#pragma CPROVER check disable "pointer"
+#pragma CPROVER check disable "bounds"
+#pragma CPROVER check disable "conversion"
+#pragma CPROVER check disable "pointer-primitive"
+GV_INST(0 <= i && i < self->gv_n, REC(self, i));
+gv_lemma_abs(self, i);
+#pragma CPROVER check pop
+//@ post Cluster_activeCov 1
+__CPROVER_assert(N == NACT(self), "the counting loop yields the LIVE sum of the dimensions of the active observations");
+//@ loop Cluster_activeCov 2
 __CPROVER_assigns(i, k, n, __CPROVER_object_whole(ind))
-__CPROVER_loop_invariant(0 <= i && i <= e && e == self->gv_n && 1 <= k && k <= self->act_dim + 1 &&
+__CPROVER_loop_invariant(0 <= i && i <= e && e == self->gv_n && 1 <= k && k <= N + 1 &&
                          n == POS(self, i) && k - 1 == ACT(self, i) &&
                          (k > 1 ==> (1 <= ind[k - 1] && ind[k - 1] < n)) &&
                          ((1 <= gv_kr && gv_kr < k) ==> (1 <= ind[gv_kr] && ind[gv_kr] <= NTOT(self))) &&
                          ((gv_k3 >= 1 && gv_t3 < i) ==> ind[gv_k3] == gv_P3))
 __CPROVER_decreases(e - i)
-//@ head Cluster_activeCov 1
+//@ head Cluster_activeCov 2
 #pragma CPROVER check push
 #pragma CPROVER check disable "signed-overflow"
 #pragma CPROVER check disable "pointer"
@@ -415,19 +434,19 @@ gv_lemma_range(self, i + 1, self->gv_n);
 gv_lemma_abs(self, i);
 if (gv_k3 && gv_t3 < i) gv_lemma_range(self, gv_t3 + 1, i);
 #pragma CPROVER check pop
-//@ loop Cluster_activeCov 2
+//@ loop Cluster_activeCov 3
 __CPROVER_assigns(d, k, __CPROVER_object_whole(ind))
-__CPROVER_loop_invariant(0 <= d && d <= ODIM(self, i) && 1 <= k && k <= self->act_dim + 1 && k - 1 - d == ACT(self, i) &&
+__CPROVER_loop_invariant(0 <= d && d <= ODIM(self, i) && 1 <= k && k <= N + 1 && k - 1 - d == ACT(self, i) &&
                          (k > 1 ==> (1 <= ind[k - 1] && ind[k - 1] < n + d)) &&
                          ((1 <= gv_kr && gv_kr < k) ==> (1 <= ind[gv_kr] && ind[gv_kr] <= NTOT(self))) &&
                          ((gv_k3 >= 1 && (gv_t3 < i || (gv_t3 == i && gv_d3 < d))) ==> ind[gv_k3] == gv_P3))
 __CPROVER_decreases(ODIM(self, i) - d)
-//@ tail Cluster_activeCov 2
+//@ tail Cluster_activeCov 3
 __CPROVER_assert(k - 1 == 1 || ind[k - 1] > ind[k - 2], "(2) ind[] is strictly increasing");
 __CPROVER_assert(ind[k - 1] == POS(self, i) + (d) && k - 1 == ACT(self, i) + (d) + 1,
                  "(2) ind[rank of component (i,d)] == position of component (i,d)");
-//@ post Cluster_activeCov 1
-__CPROVER_assert(k == N + 1 && n == NTOT(self) + 1, "all active components were numbered: k-1 == N == activeDim()");
+//@ post Cluster_activeCov 2
+__CPROVER_assert(k == N + 1 && n == NTOT(self) + 1, "all active components were numbered: k-1 == N");
 __CPROVER_assert((1 <= gv_kr && gv_kr <= N) ==> (1 <= ind[gv_kr] && ind[gv_kr] <= self->covariance_matrix.row_),
                  "forall-introduction (arbitrary ghost rank gv_kr): 1 <= ind[k] <= dim of the full matrix");
 __CPROVER_assert(gv_k3 >= 1 ==> ind[gv_k3] == gv_P3,
@@ -435,20 +454,20 @@ __CPROVER_assert(gv_k3 >= 1 ==> ind[gv_k3] == gv_P3,
 /* forall-elimination of the fact just proved, at the two selected components */
 GV_INST(gv_k1 == 0 || (1 <= gv_k1 && gv_k1 <= N), gv_k1 == 0 || ind[gv_k1] == gv_P1);
 GV_INST(gv_k2 == 0 || (1 <= gv_k2 && gv_k2 <= N), gv_k2 == 0 || ind[gv_k2] == gv_P2);
-//@ loop Cluster_activeCov 3
+//@ loop Cluster_activeCov 4
 __CPROVER_assigns(i, C.gv_cell, C.gv_sink, C.gv_writes)
 __CPROVER_loop_invariant(1 <= i && i <= N + 1 &&
                          C.gv_writes == ((INB(active_band) && gv_k1 < i) ? 1 : 0) &&
                          ((INB(active_band) && gv_k1 < i) ==> SAMEVAL(C.gv_cell, FULL_TRACKED(&self->covariance_matrix))))
 __CPROVER_decreases(N + 1 - i)
-//@ loop Cluster_activeCov 4
+//@ loop Cluster_activeCov 5
 __CPROVER_assigns(j, C.gv_cell, C.gv_sink, C.gv_writes)
 __CPROVER_loop_invariant(0 <= j && j <= active_band + 1 && i + j <= N + 1 &&
                          C.gv_writes == ((INB(active_band) && (gv_k1 < i || (gv_k1 == i && gv_k2 - gv_k1 < j))) ? 1 : 0) &&
                          ((INB(active_band) && (gv_k1 < i || (gv_k1 == i && gv_k2 - gv_k1 < j))) ==>
                           SAMEVAL(C.gv_cell, FULL_TRACKED(&self->covariance_matrix))))
 __CPROVER_decreases(active_band + 1 - j)
-//@ head Cluster_activeCov 4
+//@ head Cluster_activeCov 5
 /* forall-elimination of the fact proved after loop 1 for the arbitrary rank gv_kr; ind[] is not assigned since */
 GV_INST(1 <= i && i <= N, 1 <= ind[i] && ind[i] <= self->covariance_matrix.row_);
 GV_INST(1 <= i + j && i + j <= N, 1 <= ind[i + j] && ind[i + j] <= self->covariance_matrix.row_);
@@ -537,7 +556,7 @@ void h_update(void)
   gv_t0 = t0;
   if (0 <= t0 && t0 < S.gv_n) { gv_a0 = OACT(&S, t0); gv_dm0 = ODIM(&S, t0); }
   Cluster_update(&S);
-  __CPROVER_assert(FRESH(&S), "update() establishes the precondition of activeCov(): act_dim is current");
+  __CPROVER_assert(FRESH(&S), "update(): afterwards act_dim is current (FRESH)");
   GV_CANARY("h_update end");
 }
 
@@ -547,7 +566,8 @@ void h_activeCov(void)
   mk_cluster(&S);
   mk_selection(&S);
   __CPROVER_assume(S.covariance_matrix.row_ == NTOT(&S)); /* the cov-mat has the dimension of the cluster */
-  __CPROVER_assume(FRESH(&S));                            /* update() has run (its postcondition)         */
+  /* act_obs, act_dim, act_nonz stay ARBITRARY: activeCov() must not depend on the cached counters */
+  int w_act_dim = S.act_dim, w_n = S.gv_n;
   int kr;
   gv_kr = kr;                                             /* unconstrained: forall-introduction           */
   int t3, d3;
@@ -587,33 +607,4 @@ void h_scaleCov(void)
   GV_CANARY("h_scaleCov end");
 }
 
-/* PUBLIC API SEQUENCE  update(); <public mutation>; activeCov().
-   Cluster::observation_list and Observation::set_active()/set_passive() (local/observation.h:152,155; model.h:62)
-   are public; nothing makes activeCov() refuse or recompute when the cached act_dim is out of date.  The harness
-   performs update() (enforced contract), then flips the flag of one arbitrary observation unless the exclusion
-   predicate GV_EXCL_FLAG_CHANGE_WITHOUT_UPDATE is defined, and asserts the precondition FRESH of activeCov() for the
-   list as it is now (sum of active dimensions after the flip = NACT +- dim).                                  */
-void h_api_stale(void)
-{
-  struct Cluster S;
-  mk_cluster(&S);
-  __CPROVER_assume(NTOT(&S) <= MAXD && S.covariance_matrix.band_ < MAXD);
-  int t0;
-  gv_t0 = t0;
-  if (0 <= t0 && t0 < S.gv_n) { __CPROVER_assume(REC(&S, t0)); gv_a0 = OACT(&S, t0); gv_dm0 = ODIM(&S, t0); }
-  Cluster_update(&S);
-  int now_active_dim = NACT(&S);
-  int w_n = S.gv_n, w_t = -1, w_act_dim = S.act_dim;
-#ifndef GV_EXCL_FLAG_CHANGE_WITHOUT_UPDATE
-  if (0 <= t0 && t0 < S.gv_n) {
-    _Bool was = S.olist[t0].active_;
-    S.olist[t0].active_ = !was;     /* obs->set_passive() / obs->set_active() */
-    now_active_dim += was ? -gv_dm0 : gv_dm0;
-    w_t = t0;
-  }
-#endif
-  __CPROVER_assert(S.act_dim == now_active_dim,
-                   "activeCov() precondition after a public API sequence: act_dim == sum of the dimensions of the active observations");
-  GV_CANARY("h_api_stale end");
-}
 //@ end
